@@ -2,12 +2,33 @@
 // only when the validator accepts, every reader.
 // Op line / output line: see lean/Driver/ValidEngine.lean (the two must print the same text).
 //
-// The buffer is copied into an exact-size heap block, so that ASan reports any read outside the
-// n bytes.  For n == 0 the pointer handed to the library is the *end* of a one-byte block (a
-// zero-size malloc would still own one readable byte).
+// Placement.  The property speaks about "a byte buffer of length n": the answer has to be a
+// function of the n bytes alone - not of the address the caller happens to keep them at, and not
+// of what an earlier call saw.  Every op line is therefore run in seven placements and the seven
+// answers have to be the same text:
+//   fresh0..fresh3   a fresh heap block of n+a bytes, the buffer right-aligned in it
+//                    (msg = base+a, so msg % 4 == a and ASan's red zone starts at msg+n);
+//                    for n == 0 the pointer handed over is the *end* of a block (a zero-size
+//                    malloc would still own one readable byte);
+//   arena-v, arena-j, arena-s
+//                    one long-lived arena; the buffer sits right-aligned at arena_end-n (same n =>
+//                    same pointer, the bytes in front are poisoned).  Before the buffer is written
+//                    there, the same n bytes at the same pointer hold (v) a *valid* message of n
+//                    bytes (n >= 8, n % 4 == 0; otherwise a path of n-1 'a's), (j) n bytes 0xff,
+//                    (s) a valid message whose only argument is a string filling the n bytes, and
+//                    every function under test has been called on that earlier content.
+// If the answers differ the output line is `unstable || <placement>: <answer> || ...`.
 #include "common.h"
 #include <rtosc/rtosc.h>
 #include <sys/time.h>
+#if defined(__SANITIZE_ADDRESS__)
+#include <sanitizer/asan_interface.h>
+#define POISON(p, n) ASAN_POISON_MEMORY_REGION(p, n)
+#define UNPOISON(p, n) ASAN_UNPOISON_MEMORY_REGION(p, n)
+#else
+#define POISON(p, n) ((void)0)
+#define UNPOISON(p, n) ((void)0)
+#endif
 using namespace vh;
 
 // Watchdog: one op line takes microseconds of CPU; a loop that never terminates is killed by
@@ -17,14 +38,17 @@ static void arm_watchdog() {
     setitimer(ITIMER_PROF, &t, NULL);
 }
 
+// fresh block, buffer right-aligned at pointer alignment `a` (mod 4)
 struct Block {
     unsigned char *base;
     const char *msg;
     size_t n;
-    explicit Block(const bytes &b) : n(b.size()) {
-        base = (unsigned char *)malloc(n ? n : 1);
-        if (n) memcpy(base, b.data(), n);
-        msg = (const char *)(n ? base : base + 1);
+    Block(const unsigned char *p, size_t n_, unsigned a) : n(n_) {
+        size_t sz = n + a;
+        base = (unsigned char *)malloc(sz ? sz : 1);
+        if (!sz) sz = 1, a = 1;                                  // n == 0: the end of a block
+        if (n) memcpy(base + a, p, n);
+        msg = (const char *)(base + a);
     }
     ~Block() { free(base); }
     Block(const Block &) = delete;
@@ -49,6 +73,8 @@ static std::string show(const char *msg, char t, const rtosc_arg_t &v) {
         o << p << "@" << (v.s - msg) << ":" << hexs(v.s);      // follows the pointer up to the NUL
         return o.str();
     case 'b':
+        // the data pointer of an EMPTY blob is nobody's business (NULL is as good as any): `0@-:-`
+        if (v.b.len == 0) return p + "0@-:-";
         o << p << (uint32_t)v.b.len << "@" << ((const char *)v.b.data - msg) << ":";
         if (v.b.len < 0) o << "?";
         else o << hex(v.b.data, (size_t)v.b.len);               // reads all `len` blob bytes
@@ -85,18 +111,83 @@ static std::string readers(const char *msg) {
     return o.str();
 }
 
+// Everything the property observes on one placement of the buffer.
+// The *value* of rtosc_message_length is printed where it means something: when the validator
+// accepts, when it exceeds n (a violation), and when the first `len` bytes are a message the
+// validator accepts on their own ("size of the message at the head of a chunk").  On any other
+// rejected buffer the property only asks for `0 or <= n`: `len=ok`.
+static std::string observe(const char *msg, size_t n) {
+    std::ostringstream o;
+    size_t len = rtosc_message_length(msg, n);
+    bool valid = rtosc_valid_message_p(msg, n);
+    if (valid) {
+        o << "len=" << len << " valid=1 " << readers(msg);
+        return o.str();
+    }
+    bool exact = len > n;
+    if (!exact && len > 0 && len < n) {
+        Block head((const unsigned char *)msg, len, 0);
+        exact = rtosc_valid_message_p(head.msg, len);
+    }
+    if (exact) o << "len=" << len << " valid=0";
+    else o << "len=ok valid=0";
+    return o.str();
+}
+
+// ---- the reused arena -------------------------------------------------------------------
+static const size_t ARENA = 1 << 16;
+static unsigned char *arena = NULL;
+
+// earlier content of the n bytes; kind 0: valid message, 1: junk, 2: valid message with one string
+static void earlier(unsigned char *p, size_t n, int kind) {
+    if (kind == 1 || n == 0) { memset(p, 0xff, n); return; }
+    memset(p, 'a', n);
+    p[0] = '/';
+    if (n < 8 || n % 4) { p[n - 1] = 0; return; }
+    if (kind == 0 || n < 12) {                 // "/aa…a\0" ",\0\0\0"
+        p[n - 5] = 0; memcpy(p + n - 4, ",\0\0\0", 4);      // n-5 = 3 mod 4: one NUL ends the path
+        return;
+    }
+    memcpy(p, "/a\0\0,s\0\0", 8);            // "/a" ",s" + a string that fills the rest
+    p[n - 1] = 0;
+}
+
+static std::string in_arena(const bytes &m, int kind) {
+    size_t n = m.size();
+    if (!arena) arena = (unsigned char *)malloc(ARENA);
+    unsigned char *p = arena + ARENA - n;
+    POISON(arena, ARENA - n);
+    UNPOISON(p, n);
+    earlier(p, n, kind);
+    (void)observe((const char *)p, n);
+    if (n) memcpy(p, m.data(), n);
+    std::string r = observe((const char *)p, n);
+    UNPOISON(arena, ARENA);
+    return r;
+}
+
 static std::string step(const std::string &line) {
     arm_watchdog();
     auto w = words(line);
     if (w.size() != 2 || w[0] != "V") return "bad-op";
     bytes m;
     if (!unhex(w[1], m)) return "bad-op";
-    Block blk(m);
-    std::ostringstream o;
-    size_t len = rtosc_message_length(blk.msg, blk.n);
-    bool valid = rtosc_valid_message_p(blk.msg, blk.n);
-    o << "len=" << len << " valid=" << (valid ? 1 : 0);
-    if (valid) o << " " << readers(blk.msg);
-    return o.str();
+    std::vector<std::pair<std::string, std::string> > outs;
+    for (unsigned a = 0; a < 4; ++a) {
+        Block blk(m.data(), m.size(), a);
+        if (m.size() && ((uintptr_t)blk.msg & 3) != a) return "bad-alignment";
+        outs.push_back(std::make_pair("fresh" + std::to_string(a), observe(blk.msg, blk.n)));
+    }
+    if (m.size() <= ARENA / 2) {
+        outs.push_back(std::make_pair("arena-v", in_arena(m, 0)));
+        outs.push_back(std::make_pair("arena-j", in_arena(m, 1)));
+        outs.push_back(std::make_pair("arena-s", in_arena(m, 2)));
+    }
+    bool same = true;
+    for (size_t i = 1; i < outs.size(); ++i) same = same && outs[i].second == outs[0].second;
+    if (same) return outs[0].second;
+    std::string r = "unstable";
+    for (size_t i = 0; i < outs.size(); ++i) r += " || " + outs[i].first + ": " + outs[i].second;
+    return r;
 }
 int main(int argc, char **argv) { return run_lines(argc, argv, step); }
